@@ -26,6 +26,45 @@ def _block_of(stmt):
     return None
 
 
+GROUP_PARAMS = ('name', 'parent', 'reference', 'version', 'validation_level', 'traversal_parent')
+
+
+def group_constructions(ps):
+    """[(call node, {Group parameter: argument expression})] for every construction of a Group in the function: direct
+    `Group(...)` calls, and calls of a module-level factory whose only statement returns `Group(...)` built from its own
+    parameters (the arguments are substituted)"""
+    from .pat import call_args_by_param
+    out = []
+    mod = ps.module
+
+    def direct(call):
+        b = {}
+        for i, a in enumerate(call.args):
+            if i < len(GROUP_PARAMS):
+                b[GROUP_PARAMS[i]] = a
+        for k in call.keywords:
+            if k.arg:
+                b[k.arg] = k.value
+        return b
+    for n in own_nodes(ps.node):
+        if not isinstance(n, ast.Call):
+            continue
+        if norm(n.func) == 'Group':
+            out.append((n, direct(n)))
+        elif isinstance(n.func, ast.Name) and n.func.id in mod.functions:
+            f = mod.functions[n.func.id]
+            body = [b for b in f.node.body if not (isinstance(b, ast.Expr) and isinstance(b.value, ast.Constant))]
+            if len(body) == 1 and isinstance(body[0], ast.Return) and isinstance(body[0].value, ast.Call) and \
+                    norm(body[0].value.func) == 'Group':
+                inner = direct(body[0].value)
+                actual = call_args_by_param(n, f.node, skip_self=False)
+                b = {}
+                for gp, e in inner.items():
+                    b[gp] = actual.get(e.id, e) if isinstance(e, ast.Name) else e
+                out.append((n, b))
+    return out
+
+
 def cursor_sources(chk, ps, cursor, stack, rule):
     # the cursor only moves up to its parent or down into a group created for the current segment; the stack is only
     # re-bound to what the search returned: re-entering a group that was already left would reorder segments
@@ -38,10 +77,10 @@ def cursor_sources(chk, ps, cursor, stack, rule):
             len(n.value.elts) == len(names) else [n.value] * len(names)
         for nm, v in zip(names, vals):
             if nm == cursor:
+                made = {id(call) for call, _ in group_constructions(ps)}
                 ok = (isinstance(v, ast.Constant) and v.value is None) or norm(v) == cursor + '.parent' or (
                     isinstance(v, ast.Name) and any(isinstance(a, ast.Assign) and norm(a.targets[0]) == v.id and
-                                                    isinstance(a.value, ast.Call) and norm(a.value.func) == 'Group'
-                                                    for a in own_nodes(ps.node)))
+                                                    id(a.value) in made for a in own_nodes(ps.node)))
                 chk.ob(rule, 'cursor assignment `%s`' % norm(n)[:60], ok,
                        'the cursor is set from something other than None / its parent / a group created for this segment: a group '
                        'that was already left can be re-entered, which attaches later segments before earlier ones',
@@ -136,9 +175,10 @@ def run(chk):
     chk.rule('C08-N', 'a new repetition of the current group is opened when the segment name already occurs among ALL children of '
                       'the current group and its maximum cardinality there is 1')
     rep = None
+    same_group = {id(call) for call, bound in group_constructions(ps)
+                  if 'name' in bound and norm(bound['name']) == cursor + '.name'}
     for n in own_nodes(ps.node):
-        if isinstance(n, ast.If) and any(isinstance(x, ast.Call) and norm(x.func) == 'Group' and x.args and
-                                         norm(x.args[0]) == cursor + '.name' for b in n.body for x in ast.walk(b)):
+        if isinstance(n, ast.If) and any(id(x) in same_group for b in n.body for x in ast.walk(b)):
             rep = n
     if rep is None:
         chk.fail('C08-N', 'repetition branch', 'no branch creates Group(%s.name, ...) any more: a recurring non-repeatable member '
@@ -219,12 +259,11 @@ def run(chk):
            'the calls differ in their first four arguments: %s' % sorted(sigs), ps.loc, key='C08-E|parse_segment')
 
     # ---- A
-    groups = [n for n in own_nodes(ps.node) if isinstance(n, ast.Call) and norm(n.func) == 'Group']
+    groups = group_constructions(ps)
     chk.floor('Group constructions in parse_segments', len(groups), 2)
-    for gc in groups:
-        kw = {k.arg: norm(k.value) for k in gc.keywords}
-        name = norm(gc.args[0]) if gc.args else kw.get('name')
-        ref = kw.get('reference')
+    for gc, bound in groups:
+        name = norm(bound['name']) if 'name' in bound else None
+        ref = norm(bound['reference']) if 'reference' in bound else None
         ok = False
         if name and ref:
             m1 = name.endswith('[0]') and ref.endswith('[1]') and name[:-3] == ref[:-3]
